@@ -979,7 +979,7 @@ class BaseInterpreter(Generic[TContext, TEvent]):
         # 🏁 Restore completion output and any recorded error.
         interpreter.output = snapshot.get("output")
         recorded_error = snapshot.get("error")
-        if recorded_error:
+        if recorded_error is not None:
             # 📝 The original exception type cannot survive JSON, so the
             #    message is preserved in a dedicated wrapper. Without this a
             #    restored machine sat in `error` status with `error is None`,
